@@ -12,14 +12,27 @@ from .chooser import ReplayDivergence
 _TMP = {}
 
 
+def init_tmp():
+    """Called in the parent before any worker is forked: one scratch directory per run, removed when the parent exits
+    (pool workers are terminated without running their own exit handlers)."""
+    if 'base' not in _TMP:
+        _TMP['base'] = tempfile.mkdtemp(prefix='adbverif-')
+        _TMP['owner'] = os.getpid()
+        atexit.register(_cleanup)
+    return _TMP['base']
+
+
+def _cleanup():
+    if _TMP.get('owner') == os.getpid():
+        shutil.rmtree(_TMP['base'], True)
+
+
 def tmpdir():
-    pid = os.getpid()
-    if pid not in _TMP:
-        d = tempfile.mkdtemp(prefix='adbverif-')
-        _TMP.clear()
-        _TMP[pid] = d
-        atexit.register(shutil.rmtree, d, True)
-    return _TMP[pid]
+    base = init_tmp()
+    d = os.path.join(base, 'w%d' % os.getpid())
+    if not os.path.isdir(d):
+        os.makedirs(d, exist_ok=True)
+    return d
 
 
 class StubSigner(object):
@@ -39,8 +52,40 @@ class StubSigner(object):
         return pk.encode() if self.pub_as_bytes else pk
 
 
+class VLock(object):
+    """Stand-in for threading.Lock in single-threaded executions: acquiring a lock that is already held can never
+    succeed there, so it is reported as a verdict instead of blocking the harness for real."""
+
+    def __init__(self):
+        self._held = False
+
+    def acquire(self, blocking=True, timeout=-1):
+        if self._held:
+            if not blocking:
+                return False
+            raise simenv.Hang('acquire() of a lock that is already held: the operation would block forever')
+        self._held = True
+        return True
+
+    def release(self):
+        if not self._held:
+            raise RuntimeError('release unlocked lock')
+        self._held = False
+
+    def locked(self):
+        return self._held
+
+    def __enter__(self):
+        self.acquire()
+        return True
+
+    def __exit__(self, *a):
+        self.release()
+
+
 class Session(object):
     def __init__(self, ch, cfg, twin='sync', default_timeout=None, banner=b'verif', explore_io=False, **envkw):
+        envkw_lock = envkw.pop('lock_factory', None)
         self.env = simenv.Env(ch, cfg, **envkw)
         self.twin = twin
         self.ch = ch
@@ -50,6 +95,8 @@ class Session(object):
         ad.time = self.env.clock
         ada.time = self.env.clock
         if twin == 'sync':
+            self._real_lock = ad.Lock
+            ad.Lock = envkw_lock or VLock
             self.transport = simenv.make_sync_transport(self.env)
             self.dev = ad.AdbDevice(self.transport, default_transport_timeout_s=default_timeout, banner=banner)
             self.loop = None
@@ -60,11 +107,22 @@ class Session(object):
             if explore_io:
                 self.env.sched = self.loop
         self.cb_log = []
+        self.gens = []
 
     def finish(self):
         import time as _time
         self.mods[0].time = _time
         self.mods[1].time = _time
+        if self.twin == 'sync':
+            self.mods[0].Lock = self._real_lock
+        for g in self.gens:
+            try:
+                if self.twin == 'sync':
+                    g.close()
+                else:
+                    self.loop.run1(g.aclose())
+            except BaseException:  # pylint: disable=broad-except
+                pass
         if self.loop is not None:
             self.loop.shutdown()
 
@@ -111,6 +169,27 @@ class Session(object):
             async def collect(d):
                 return [x async for x in d.streaming_shell(args[0], **kw)]
             return self.run(collect)
+        if name == 'gen-start':
+            # open a streaming_shell, take its first item and leave the generator suspended (a live stream with data in flight)
+            if sync:
+                def start(d):
+                    g = d.streaming_shell(args[0], **kw)
+                    self.gens.append(g)
+                    return next(g)
+            else:
+                async def start(d):
+                    g = d.streaming_shell(args[0], **kw)
+                    self.gens.append(g)
+                    return await g.__anext__()
+            return self.run(start)
+        if name == 'gen-rest':
+            g = self.gens[args[0]]
+            if sync:
+                return self.run(lambda d: list(g))
+
+            async def rest(d):
+                return [x async for x in g]
+            return self.run(rest)
         if name == 'list':
             r = self.run(lambda d: d.list(args[0], **kw))
             if r[0] == 'ok':
